@@ -387,8 +387,11 @@ class Verdict:
         ev = {"property_id": self.pid, "tier": self.tier, "seed": self.seed, "level": level,
               "coverage": cov, "assumptions": self.assumptions, "wall_s": round(time.time() - self.t0, 2),
               "violations": self.violations}
-        os.makedirs(os.path.join(ROOT, "evidence"), exist_ok=True)
-        json.dump(ev, open(os.path.join(ROOT, "evidence", "%s.json" % self.pid), "w"), indent=1)
+        # evidence describes runs against /repo itself; development runs against another tree
+        # (CB_VERIF_SRC, used for seeded mutants) do not overwrite it
+        evdir = os.path.join(ROOT, "evidence") if os.path.realpath(SRC) == "/repo" else os.path.join(scratch(), "evidence")
+        os.makedirs(evdir, exist_ok=True)
+        json.dump(ev, open(os.path.join(evdir, "%s.json" % self.pid), "w"), indent=1)
         log("%s %s: %d obligations (%d ok), %d evaluations, %d violations, %d known findings, %.1fs" % (
             self.pid, self.tier, len(self.obligations), cov["discharged"], cov["evaluations"],
             self.violations, self.known, time.time() - self.t0))
